@@ -13,7 +13,7 @@ Definition MaxHeight : nat := 12.
 Definition tnode : Type := (mentry * nat)%type.
 Definition tower : Type := list tnode.
 
-Definition linked (lv : nat) (p : tnode) : bool := (lv <? snd p)%nat.
+Definition linked (lv : nat) (p : tnode) : bool := Nat.ltb lv (snd p).
 
 (* the level-lv chain: nodes reachable from head by next[lv] *)
 Definition chain (lv : nat) (t : tower) : tower := filter (linked lv) t.
